@@ -185,29 +185,33 @@ def check_property(pid, tier="quick", seed=0, extra_checks=None):
     # callgraph.json (a scheduling hint written by tools/sweep_all.py) and completed with what the run itself observes,
     # so a change that introduces a new callee is still followed.
     from .contracts import REGISTRY
-    direct = set(keys)
     hint = load_callgraph()
     todo = list(keys)
     seen_keys = set(keys)
-    while todo:
+    used_as_callee = set()         # functions whose contract some function of the set applies: ALL their obligations count,
+    while todo:                    # also when a few of their clauses are tagged with this property themselves
         k = todo.pop()
         for c_ in hint.get(k, []):
-            if c_ in REGISTRY and c_ not in seen_keys and not getattr(REGISTRY[c_], "assumed", None):
-                seen_keys.add(c_)
-                todo.append(c_)
+            if c_ in REGISTRY and not getattr(REGISTRY[c_], "assumed", None):
+                used_as_callee.add(c_)
+                if c_ not in seen_keys:
+                    seen_keys.add(c_)
+                    todo.append(c_)
     keys = sorted(seen_keys)
     results = run_functions(keys)
     for _round in range(6):
         more = set()
         for fr in results:
             for c_ in fr.get("callees", []):
-                if c_ in REGISTRY and c_ not in seen_keys and not getattr(REGISTRY[c_], "assumed", None):
-                    more.add(c_)
+                if c_ in REGISTRY and not getattr(REGISTRY[c_], "assumed", None):
+                    used_as_callee.add(c_)
+                    if c_ not in seen_keys:
+                        more.add(c_)
         if not more:
             break
         seen_keys |= more
         results += run_functions(sorted(more))
-    whole = set(included_for(pid)) | (seen_keys - direct)
+    whole = set(included_for(pid)) | used_as_callee
     n_obl = n_dis = 0
     violations, undecided, faults, known_hits = [], [], [], []
     foreign = []
